@@ -15,6 +15,7 @@ import SharkVerif.Lemmas.KernelsGaussPSD
 import SharkVerif.Lemmas.KernelDerivs
 import SharkVerif.Lemmas.KernelDerivsArd
 import Mathlib.Algebra.BigOperators.Group.List.Basic
+import Mathlib.Algebra.BigOperators.Fin
 import Mathlib.Algebra.BigOperators.Ring.List
 import Mathlib.Algebra.Order.BigOperators.Group.List
 import Mathlib.Analysis.Real.Sqrt
@@ -1081,5 +1082,79 @@ example : HasDerivAt (fun s => sumRow (fun c z => c * (Kern.poly 3 1).eval Real.
     ((polyInputRow 3 1 [2, -1] [1, 2] [[0, 1], [1, 1]]).getD 0 0) 1 := by
   have h := poly_weightedInputDerivative Real.exp Real.sqrt 3 (by norm_num) 1 [2, -1] [1, 2] [[0, 1], [1, 1]] 0 (by simp)
   simpa using h
+
+end SharkVerif.C05
+
+/-! ## 13. PointSetKernel is positive semi-definite when its base kernel is (quadratic-form version, mean embedding) -/
+namespace SharkVerif.C05
+open SharkVerif.Kernels
+
+/-- the quadratic form `Σ_p Σ_q c_p c_q κ(p,q)` of a kernel on a finite weighted list of inputs of any type -/
+def quadFormG {P : Type} (κ : P → P → ℝ) (ps : List (P × ℝ)) : ℝ :=
+  (ps.map fun p => (ps.map fun q => p.2 * q.2 * κ p.1 q.1).sum).sum
+
+theorem quadFormG_nonneg_of_isPSD {P : Type} {κ : P → P → ℝ} (h : IsPSD κ) (ps : List (P × ℝ)) :
+    0 ≤ quadFormG κ ps := by
+  have := h.quadForm_nonneg ps.length (fun i => ps[i].1) (fun i => ps[i].2)
+  refine le_of_le_of_eq this ?_
+  unfold quadFormG
+  rw [← Fin.sum_univ_fun_getElem ps (fun p => (ps.map fun q => p.2 * q.2 * κ p.1 q.1).sum)]
+  refine Finset.sum_congr rfl fun i _ => ?_
+  exact Fin.sum_univ_fun_getElem ps (fun q => ps[i].2 * q.2 * κ ps[i].1 q.1)
+
+theorem sum_map_flatMap {A B : Type} (f : A → List B) (g : B → ℝ) : ∀ l : List A,
+    ((l.flatMap f).map g).sum = (l.map fun a => ((f a).map g).sum).sum
+  | [] => by simp
+  | a :: l => by simp [List.flatMap_cons, sum_map_flatMap f g l]
+
+theorem natS_eq_cast : ∀ n : ℕ, (natS n : ℝ) = (n : ℝ)
+  | 0 => by simp [natS]
+  | n + 1 => by simp [natS, natS_eq_cast n]
+
+/-- the points of a weighted list of point sets, each carrying `coefficient / set size` -/
+noncomputable def spread (W : List (Mat ℝ × ℝ)) : List (Point ℝ × ℝ) :=
+  W.flatMap fun Xc => Xc.1.map fun x => (x, Xc.2 / (Xc.1.length : ℝ))
+
+/-- the point-set quadratic form is the base kernel's quadratic form on the spread points (mean embedding) -/
+theorem pointSet_quadForm_eq (exp sqrt : ℝ → ℝ) (k : Kern ℝ) (W : List (Mat ℝ × ℝ)) :
+    quadFormG (pointSetEval exp sqrt k) W = quadFormG (k.eval exp sqrt) (spread W) := by
+  unfold quadFormG spread
+  rw [sum_map_flatMap]
+  apply congrArg
+  apply List.map_congr_left
+  intro Xc _
+  rw [List.map_map]
+  -- inner sums
+  have inner : ∀ p : Point ℝ × ℝ,
+      ((W.flatMap fun Zc => Zc.1.map fun z => (z, Zc.2 / (Zc.1.length : ℝ))).map
+        fun q => p.2 * q.2 * k.eval exp sqrt p.1 q.1).sum =
+      (W.map fun Zc => ((Zc.1.map fun z => p.2 * (Zc.2 / (Zc.1.length : ℝ)) * k.eval exp sqrt p.1 z).sum)).sum := by
+    intro p
+    rw [sum_map_flatMap]
+    apply congrArg
+    apply List.map_congr_left
+    intro Zc _
+    rw [List.map_map]; rfl
+  simp only [Function.comp_def, inner]
+  -- exchange: Σ_x Σ_Z (...) = Σ_Z Σ_x (...)
+  rw [sum_sum_comm (fun (x : Point ℝ) (Zc : Mat ℝ × ℝ) =>
+      (Zc.1.map fun z => Xc.2 / (Xc.1.length : ℝ) * (Zc.2 / (Zc.1.length : ℝ)) * k.eval exp sqrt x z).sum) Xc.1 W]
+  apply congrArg
+  apply List.map_congr_left
+  intro Zc _
+  rw [pointSet_eq_mean, natS_eq_cast, Nat.cast_mul]
+  -- pull the constants out of the double sum
+  have e : ∀ x : Point ℝ, (Zc.1.map fun z => Xc.2 / (Xc.1.length : ℝ) * (Zc.2 / (Zc.1.length : ℝ)) * k.eval exp sqrt x z).sum =
+      (Xc.2 / (Xc.1.length : ℝ) * (Zc.2 / (Zc.1.length : ℝ))) * (Zc.1.map fun z => k.eval exp sqrt x z).sum := by
+    intro x; rw [List.sum_map_mul_left]
+  simp only [e]
+  rw [List.sum_map_mul_left]
+  simp only [div_eq_mul_inv, mul_inv]; ring
+
+/-- **pointSet_psd** (quadratic-form version): if the base kernel is PSD, so is the point-set kernel — for every
+finite weighted list of point sets (of any sizes, also empty), `Σ_ab c_a c_b k_PS(X_a, X_b) ≥ 0`. -/
+theorem pointSet_quadForm_nonneg (exp sqrt : ℝ → ℝ) (k : Kern ℝ) (h : IsPSD (k.eval exp sqrt)) (W : List (Mat ℝ × ℝ)) :
+    0 ≤ quadFormG (pointSetEval exp sqrt k) W := by
+  rw [pointSet_quadForm_eq]; exact quadFormG_nonneg_of_isPSD h _
 
 end SharkVerif.C05
